@@ -36,6 +36,8 @@ STRENGTHENED = {
  'C16-r4-m2': 'a non-injective encoder (last value) and searches whose results encode alike; GetFromAll count = FindInAll count for types with a Getter',
  'C08-r5-m2': 'match() against a fully valued Sid whose last value is an alias',
  'C08-r5-m3': 'results asked as Sid objects on searches derived from untypeable (near-miss) entries',
+ 'C20-r5-m1': 'family member whose third path configuration has its own one-to-one value mappings (C05 stream in all configurations of one process)',
+ 'C20-r5-m3': 'the C11 finder-agreement stream (real trees) on every family member',
  'C20-r3-m2': 'NOT CAUGHT: needs overlapping key_patterns groups (precedence between them is not a documented convention); see DESIGN.md I.7',
 }
 res = {}
